@@ -196,7 +196,8 @@ func (b *Buffer) ServeHTTP(w http.ResponseWriter, req *http.Request) {
 		}
 
 		var reader multibuf.MultiReader
-		if bw.expectBody(outReq) {
+		if bw.expectBody(outReq) && bw.written {
+			// (nothing written means an empty body: the writer has no reader in that case)
 			rdr, err := writer.Reader()
 			if err != nil {
 				b.log.Error("vulcand/oxy/buffer: failed to read response, err: %v", err)
@@ -205,6 +206,10 @@ func (b *Buffer) ServeHTTP(w http.ResponseWriter, req *http.Request) {
 			}
 			defer rdr.Close()
 			reader = rdr
+		}
+		if bw.code == 0 {
+			// a handler that never calls WriteHeader answers 200, as with net/http
+			bw.code = http.StatusOK
 		}
 
 		if (b.retryPredicate == nil || attempt > DefaultMaxRetryAttempts) ||
@@ -264,6 +269,7 @@ type bufferWriter struct {
 	buffer         multibuf.WriterOnce
 	responseWriter http.ResponseWriter
 	hijacked       bool
+	written        bool
 	writeError     error
 	log            utils.Logger
 }
@@ -300,6 +306,9 @@ func (b *bufferWriter) Header() http.Header {
 
 func (b *bufferWriter) Write(buf []byte) (int, error) {
 	length, err := b.buffer.Write(buf)
+	if err == nil && len(buf) > 0 {
+		b.written = true
+	}
 	if err != nil {
 		// Since go1.11 (https://github.com/golang/go/commit/8f38f28222abccc505b9a1992deecfe3e2cb85de)
 		// if the writer returns an error, the reverse proxy panics
